@@ -93,6 +93,15 @@ ADDRS = [0, 1, 2, 5]
 LABEL_NAMES = ["L", "LOOP", "EXIT", "skip", "end_1", "A", "B2", "Lx", "again", "out", "Q0_done", "M0_loop", "R2D", "C3po", "Rx", "Mloop", "M0_", "R1_", "Q2_1", "C15_", "M0_0_", "r", "m", "q", "c", "q1"]
 
 
+# further assemblies of the SAME ProtoSubroutine object (one program assembled once per target flavour / assembled again on a
+# retry): the flavour argument of every further assembly; [] = the program object is assembled only once
+st_again = st.one_of(
+    st.just([]),
+    st.just([]),
+    st.lists(st.sampled_from([None, "vanilla", "nv", "reids"]), min_size=1, max_size=2),
+)
+
+
 @st.composite
 def st_program(draw, max_blocks=6):
     if draw(st.integers(0, 11)) == 0:
@@ -104,7 +113,7 @@ def st_program(draw, max_blocks=6):
         for _ in range(draw(st.integers(1, 2))):
             prog0.append([draw(st.sampled_from(["add", "sub"])), [draw(st.sampled_from(regs)), draw(st.sampled_from(regs)), draw(st.integers(1, 9))]])
         return {"prog": prog0, "init": {r: draw(st.integers(0, 9)) for r in regs}, "unit": 3, "style": draw(st.lists(st.integers(0, 99), min_size=30, max_size=30)),
-                "flavour": draw(st.sampled_from([None, None, "vanilla", "nv", "reids"]))}
+                "flavour": draw(st.sampled_from([None, None, "vanilla", "nv", "reids"])), "again": draw(st_again)}
     nregs_extra = draw(st.sampled_from([0, 0, 0, 2, 6, 9, 10, 11, 12]))
     # which of R4..R15 the program names (when few stay free, it matters which ones)
     pool = VARS + (MORE_R[:nregs_extra] if draw(st.booleans()) else sorted(draw(st.permutations(MORE_R))[:nregs_extra], key=lambda r: int(r[1:])))
@@ -290,7 +299,7 @@ def st_program(draw, max_blocks=6):
     style = draw(st.lists(st.integers(0, 99), min_size=30, max_size=30))
     # the programs use core instructions only, so every flavour assembles them alike; None = the default (what the SDK passes)
     flav = draw(st.sampled_from([None, None, "vanilla", "nv", "reids"]))
-    return {"prog": prog, "init": init_regs, "unit": 3, "style": style, "flavour": flav}
+    return {"prog": prog, "init": init_regs, "unit": 3, "style": style, "flavour": flav, "again": draw(st_again)}
 
 
 def _set_tmp(prog, reg, value):
@@ -616,7 +625,50 @@ def check(case) -> Dict[str, Any]:
         results[route] = [g.instr_to_json(i) for i in sub.instructions]
     if len(results) == 2 and results["text"] != results["ir"]:
         raise Failure("text-vs-ir", dict(case, text=text), "text route and IR route assemble to different subroutines")
+    if case.get("again") and len(results) == 2:
+        info["reassembled"] = reassemble_check(dict(case, text=text), text)
     return info
+
+
+def _flavour_kw(name) -> Dict[str, Any]:
+    if not name:
+        return {}
+    from netqasm.lang.instr import flavour as _fl
+
+    return {"flavour": {"vanilla": _fl.VanillaFlavour, "nv": _fl.NVFlavour, "reids": _fl.REIDSFlavour}[name]()}
+
+
+def reassemble_check(c, text) -> int:
+    """One program object (ProtoSubroutine from the text parser / hand-built IR) handed to the assembler several times, each
+    time possibly for another flavour: EVERY subroutine that comes back is an assembled form of the source program and is judged
+    by the same static and dynamic oracle as a first assembly; a subroutine obtained earlier must not change under the hands of
+    its holder when the program is assembled again.  (Only programs the assembler accepted: a rejection is no assembly.)"""
+    from netqasm.lang.parsing.text import assemble_subroutine, parse_text_protosubroutine
+
+    flavours = [c.get("flavour")] + list(c["again"])
+    for route in ("text", "ir"):
+        rname = f"{route}-reassembled"
+        try:
+            proto = parse_text_protosubroutine(text) if route == "text" else lower_ir(c)
+        except Exception as e:
+            raise Failure(f"{rname}:proto-raises", c, f"building the program object raised {type(e).__name__}: {e}")
+        earlier = []  # (subroutine, its listing when it was returned)
+        for n, fl in enumerate(flavours):
+            try:
+                sub = assemble_subroutine(proto, **_flavour_kw(fl))
+            except Exception as e:
+                raise Failure(f"{rname}:assemble-raises", c, f"assembly number {n + 1} of one {route} program object (flavour {fl}) raised {type(e).__name__}: {e}")
+            try:
+                amap, _ = static_check(c, sub.instructions, rname)
+                dynamic_check(c, sub.instructions, amap, rname)
+            except Failure as f:
+                f.message = f"assembly number {n + 1} of one {route} program object (flavours so far {flavours[: n + 1]}): {f.message}"
+                raise
+            earlier.append((sub, [g.instr_to_json(i) for i in sub.instructions]))
+            for k, (s0, js0) in enumerate(earlier[:-1]):
+                if [g.instr_to_json(i) for i in s0.instructions] != js0:
+                    raise Failure(f"{rname}:earlier-result-changed", c, f"the subroutine returned by assembly number {k + 1} changed when the same {route} program object was assembled again (assembly number {n + 1})")
+    return len(flavours)
 
 
 def shard(ctx: Ctx) -> None:
@@ -652,6 +704,12 @@ def shard(ctx: Ctx) -> None:
             labels.append("initial-valuation")
         if case.get("flavour"):
             labels.append("explicit-flavour:" + case["flavour"])
+        if info.get("reassembled"):
+            labels.append(f"same-program-object-assembled-{info['reassembled']}-times")
+            if len(set([case.get("flavour")] + list(case["again"]))) > 1:
+                labels.append("same-program-object-assembled-for-different-flavours")
+            if any(sub for i in prog if i[0] != "label" for (_j, sub) in literal_slots(i)):
+                labels.append("reassembled-with-literal-index-or-bound")
         if any(isinstance(o, dict) and isinstance(o.get("idx"), int) for i in prog if i[0] != "label" for o in i[1]):
             labels.append("literal-index")
         if any(isinstance(o, dict) and "start" in o and (isinstance(o["start"], int) or isinstance(o["stop"], int)) for i in prog if i[0] != "label" for o in i[1]):
